@@ -184,7 +184,10 @@ namespace
       for (size_t i = 0; i < r.tokens.size(); ++i) l += (i ? (c.comma ? ", " : " ") : "") + r.tokens[i];
       return l;
     };
-    const unsigned lay = c.layout % 6;
+    const unsigned lay = c.layout % 8;
+    // layouts 6 and 7: the option lines are indented (blanks / a tab in front of the #): lines are split into words, so they are option lines all the same
+    if (lay == 6) for (auto &o : opts) o = "   " + o;
+    if (lay == 7) for (auto &o : opts) o = "\t" + o;
     if (lay == 1) std::reverse(opts.begin(), opts.end());
     if (lay == 2) std::rotate(opts.begin(), opts.begin() + 2, opts.end());
     if (lay == 3)
@@ -417,12 +420,12 @@ namespace
                     if (conv && dim == 2) continue;
                     Config c;
                     c.world = w; c.dim = dim; c.comps = comps; c.gcomps = gc; c.ngrains = (gc == 0 && !thorough) ? 0 : ng; c.convert = conv; c.comma = comma;
-                    c.layout = static_cast<unsigned>(v.size()) % 6;
+                    c.layout = static_cast<unsigned>(v.size()) % 8;
                     v.push_back(c);
                   }
     if (thorough)
       // every arrangement of the option lines for one configuration per dimension
-      for (unsigned dim : {2u, 3u}) for (unsigned lay = 0; lay < 6; ++lay) for (unsigned w : {0u, 1u})
+      for (unsigned dim : {2u, 3u}) for (unsigned lay = 0; lay < 8; ++lay) for (unsigned w : {0u, 1u})
             {
               Config c; c.world = w; c.dim = dim; c.comps = 3; c.gcomps = 2; c.ngrains = 2; c.layout = lay; c.comma = lay % 2;
               v.push_back(c);
@@ -479,7 +482,7 @@ namespace
     for (size_t n = 1; n < good.size(); ++n) s.push_back({join(std::vector<std::string>(good.begin(), good.begin() + static_cast<long>(n))), 'R', "row with too few columns"});
     { auto t = good; t.push_back("7"); s.push_back({join(t), 'R', "row with too many columns"}); t.push_back("8"); s.push_back({join(t), 'R', "row with too many columns"}); }
     for (size_t k = 0; k < good.size(); ++k)
-      for (const char *bad : {"abc", "1e5x", "1.2.3", "--1", "1e", "0x", "1;2"})
+      for (const char *bad : {"abc", "1e5x", "1.2.3", "--1", "1e", "0x", "1;2", "0x10", "inf", "-Infinity", "nan", "NAN(1)", "1e999", "0X1p3"})   // (hexadecimal, infinite, not-a-number and overflowing spellings are not numbers of a table row either)
         {
           auto t = good; t[k] = bad;
           s.push_back({join(t), 'R', "row with a non-numeric token"});
@@ -577,7 +580,7 @@ int main(int argc, char **argv)
   Spec spec;
   spec.property = "C17";
   spec.level = "exploration";
-  spec.rule = "suite tables: full product of worlds x dim x compositions x grain compositions x grains x convert spherical x separator (with six arrangements of option / comment / blank lines "
+  spec.rule = "suite tables: full product of worlds x dim x compositions x grain compositions x grains x convert spherical x separator (with eight arrangements of option / comment / blank lines, two of them with indented option lines "
               "assigned round-robin, all six for selected configurations in the thorough tier); one run of the real gwb-dat binary per tuple on 240 (3-D) / 54 (2-D) rows; every cell is matched "
               "by header name with the library's value printed through the same ostream formatting. suite lines: every comment / option-prefix / malformed line of the alphabet inserted before "
               "the first row, between rows and after the last row, run in the ASan+UBSan build of the tool with libstdc++ assertions. non-trivial: at least five columns take more than one value over the rows";
@@ -604,7 +607,7 @@ int main(int argc, char **argv)
     s[1].n = (n2 + n3) * 3ull;
     s[1].run = [n2](uint64_t i, Ctx &c) { run_special(n2, i, c); };
     s[1].bound = std::to_string(n2) + " (2-D) + " + std::to_string(n3) + " (3-D) special lines (bare #, every token-prefix of every option line, comments of 1..8 words, look-alike options, rows with too few / too many columns, "
-                 "a non-numeric token of 7 kinds at every position, trailing garbage, refused option values) x 3 insertion positions; sanitizer build of the tool";
+                 "a non-numeric token of 14 kinds (incl. hexadecimal, inf, nan, overflow) at every position, trailing garbage, refused option values) x 3 insertion positions; sanitizer build of the tool";
     s[1].watchdog_s = 300;
     return s;
   });
